@@ -94,6 +94,27 @@ theorem failure_does_not_starve {P : Prog} {ops : List Op} {m : M} (h : Reach P 
   have := h.settled hq e he
   simpa [ready] using this
 
+/-- **Failures are contained, per operation.**  Started on *any* core state, `register`, `call_when_ready` and
+`listen_to_dependencies` never raise to their caller, whatever the callbacks they trigger do (raise, release a deferral twice,
+quit, register, declare …) and however long they run (`n` steps, finished or not). -/
+theorem rendezvous_never_raises (P : Prog) (c : Core) (a : Act) (ha : a.isRendezvous = true) (n : Nat) :
+    (run P n ⟨c, [.script [a], .opEnd], false⟩).core.log.countP isOpRaised = c.log.countP isOpRaised :=
+  (guarded_run n (Or.inr (Or.inl ⟨a, ha, rfl, rfl⟩))).2
+
+/-- **The snapshot in the log is the registry at the call**: a step that records an invocation of a callback records the
+component list as it is in the state the step starts from (so `waiter_not_early` is about the registry at call time). -/
+theorem fired_snapshot_is_registry (P : Prog) (m : M) (id : Nat) (snap : List Name)
+    (hf : Ev.fired id snap ∈ (step P m).core.log) : Ev.fired id snap ∈ m.core.log ∨ snap = m.core.comps := by
+  obtain ⟨c, st, x⟩ := m
+  cases st with
+  | nil => exact Or.inl hf
+  | cons f rest =>
+    obtain ⟨l, hl, hfired, _⟩ := (logStep_stepTop (P := P) (c := c) x f).ext
+    have hf' : Ev.fired id snap ∈ c.log ++ l := hl ▸ hf
+    rcases List.mem_append.1 hf' with h | h
+    · exact Or.inl h
+    · exact Or.inr (hfired id snap h)
+
 /-- **Lifecycle, safety.**  With `goUp` called at most once: GoingUp, Up, GoingDown, Down are each raised at most once; every
 Up is preceded by GoingUp, every GoingDown by GoingUp, every Down by GoingDown; Up is raised only with no deferral
 outstanding. -/
@@ -137,6 +158,21 @@ theorem lifecycle_up_when_released {P : Prog} {ops : List Op} {m : M} (hP : P.re
     rw [if_pos this] at h3; exact h3
   · intro hs
     rw [if_pos hs] at h2; omega
+
+/-- **Lifecycle, `goUp` delivers.**  A `goUp()` call that has returned either completed the delivery of GoingUp
+(stage ≥ 1, from where `lifecycle_up_when_released` takes over) or raised to its caller (a GoingUp handler raised): the
+last thing recorded is that exception. -/
+theorem goUp_delivers (P : Prog) (m : M) (n : Nat) (hret : (run P n (startOp .goUp m)).stack = []) :
+    1 ≤ (run P n (startOp .goUp m)).core.stage ∨ (run P n (startOp .goUp m)).core.log.getLast? = some .opRaised := by
+  have h0 : GoUpProgress (startOp .goUp m) := Or.inl ⟨rfl, rfl⟩
+  rcases goUpProgress_run (P := P) n h0 with ⟨h, _⟩ | ⟨upper, h⟩ | h | ⟨_, h⟩ | ⟨_, h⟩
+  · rw [hret] at h; cases h
+  · rw [hret] at h
+    have := congrArg List.length h
+    simp at this
+  · exact Or.inl h
+  · rw [hret] at h; cases h
+  · exact Or.inr h
 
 /-- **Lifecycle, going down.**  Whenever an operation has returned: Down has been raised as often as GoingDown (once, or
 never), even when handlers of GoingDown raise; and GoingDown has been raised iff the core is no longer `running` — which is
